@@ -109,12 +109,17 @@ func (s *Session) accept(i uint16) {
 	if i < 2 || s.parent == nil || s.jobs == nil || len(s.jobs) == 0 {
 		return
 	}
-	s.lock.RLock()
+	// NOTE: Status is only changed while the Job is still pending (under the
+	//       lock), so a finished Job keeps its final Status.
+	s.lock.Lock()
 	j, ok := s.jobs[i]
-	if s.lock.RUnlock(); !ok {
+	if ok {
+		j.Status = StatusAccepted
+	}
+	if s.lock.Unlock(); !ok {
 		return
 	}
-	if j.Status = StatusAccepted; j.Update != nil {
+	if j.Update != nil {
 		s.m.queue(event{j: j, jf: j.Update})
 	}
 	if cout.Enabled {
@@ -213,15 +218,18 @@ func (s *Session) frag(i, id, max, cur uint16) {
 	if i < 2 || s.parent == nil || s.jobs == nil || len(s.jobs) == 0 {
 		return
 	}
-	s.lock.RLock()
+	s.lock.Lock()
 	j, ok := s.jobs[i]
-	if s.lock.RUnlock(); !ok {
+	if ok {
+		if j.Frags == 0 {
+			j.Status = StatusReceiving
+		}
+		j.Frags, j.Current = max, cur
+	}
+	if s.lock.Unlock(); !ok {
 		return
 	}
-	if j.Frags == 0 {
-		j.Status = StatusReceiving
-	}
-	if j.Frags, j.Current = max, cur; j.Update != nil {
+	if j.Update != nil {
 		s.m.queue(event{j: j, jf: j.Update})
 	}
 	if cout.Enabled {
